@@ -41,6 +41,12 @@ def scenarios(tier, pid):
        "--prev", "10:infoR,12:plain", "--preempt", 3 if tier == "thorough" else 2)
     sc("delivery_thread_vs_two_first_regs_b", ("C04",), "--threads", "R12:2;R10:1;W10",
        "--prev", "10:plain,12:info", "--preempt", 3 if tier == "thorough" else 2)
+    # other code replaces the handler with sigaction while the first registration is under way:
+    # the library chains to the one it really displaced
+    sc("foreign_sigaction_during_first_registration", ("C04",), "--threads", "R10:1;F10:2,W10,W10",
+       "--prev", "10:plain", "--preempt", 2)
+    sc("foreign_sigaction_during_first_registration_b", ("C04",), "--threads", "R10:1,D10;F10:1",
+       "--prev", "10:infoR", "--preempt", 2)
     sc("prev_after_all_actions_removed", ("C04", "C02"), "--threads",
        "R10:1,R12:2,U1,D10,D12,S12,D12,D10,R10:3,D10", "--prev", "10:plain,12:info")
     sc("unregsig_vs_other_mutators", ("C18", "C01", "C05"), "--threads", "S10,R10:3;R12:4,U1;U2",
@@ -208,10 +214,15 @@ def run_registry(chk, tier):
     pid = chk.pid
     inv = INV_OF[pid]
     run_model(chk, tier)
-    for name, args in scenarios(tier, pid):
+    todo = [(n, a, False) for n, a in scenarios(tier, pid)]
+    # the single-threaded scenarios once more with the build that has release semantics
+    # (debug_assert! compiled out, wrapping arithmetic)
+    todo += [(n + "_rel", a, True) for n, a, _ in list(todo)
+             if ";" not in a[a.index("--threads") + 1] and not n.startswith("gen")]
+    for name, args, rel in todo:
         out = os.path.join(WORK, "rg_%s_%s" % (pid, name))
         stats, _, _ = harness("registry", *args, "--out", out, "--max", 200000,
-                              "--fine-max", 0, timeout=3000)
+                              "--fine-max", 0, timeout=3000, rel=rel)
         chk.evaluations += stats["schedules"]
         chk.distinct += stats["distinct_abs_traces"]
         if not stats["exhausted"]:
